@@ -8,7 +8,7 @@
     footer-last format, and [C11_refuted] exhibits the witness: a valid file
     with a strict prefix that is itself a complete file. *)
 From Coq Require Import List NArith ZArith.
-From PQ Require Import Bytes Schema Rle Writer Io Reader TruncProofs.
+From PQ Require Import Bytes Schema Rle MetaTypes Thrift Meta Writer Io Reader TruncProofs.
 Import ListNotations.
 
 Theorem C11_short_rejected : forall decompress fs file sched,
@@ -23,6 +23,22 @@ Theorem C11_bad_length_rejected : forall decompress fs file sched,
   read_all_src decompress fs (mk_src file sched None) = open_failed false.
 Proof. exact open_bad_length. Qed.
 Print Assumptions C11_bad_length_rejected.
+
+(** What acceptance requires, for EVERY byte string: the constructor succeeds
+    only if the 4 bytes before the last 4 are a length L with L + 8 <= len and
+    the bytes at offset len - 8 - L decode as a FileMetaData.  (The last four
+    bytes - the magic - are not looked at by the reader.)  Hence a strict
+    prefix of a valid file can be accepted only when it ends, 4 bytes before
+    its end, with a complete footer followed by that footer's length: the
+    class of the open finding (an embedded trailer), and nothing else. *)
+Theorem C11_accepted_only_with_trailer : forall decompress fs file sched,
+  o_open_ok (read_all_src decompress fs (mk_src file sched None)) = true ->
+  (8 <= length file)%nat /\
+  (Z.of_N (le_dec (firstn 4 (skipn (length file - 8) file))) + 8 <= Z.of_nat (length file))%Z /\
+  exists fm rest,
+    dec_file_meta (skipn (length file - 8 - N.to_nat (le_dec (firstn 4 (skipn (length file - 8) file)))) file) = Some (fm, rest).
+Proof. exact open_ok_trailer. Qed.
+Print Assumptions C11_accepted_only_with_trailer.
 
 (** the refutation: [w_file] is a valid one-record file (struct { S string },
     uncompressed) whose string value is the trailer of an empty file; cut right
